@@ -22,6 +22,18 @@ void h_two_reservations(void)
   __CPROVER_assert(y.m_loc + s2 <= l->m_size, "area covers both states");
 }
 
+#ifdef C13_LEXER
+const char *nondet_cstr(void);
+int nondet_int(void);
+void h_parse_esc_num(void)
+{
+  const char *in_str = nondet_cstr();
+  int in_len = nondet_int(), in_ignore = nondet_int(), in_base = nondet_int();
+  verif_raised = 0;
+  lex_parse_esc_num(in_str, in_len, in_ignore, in_base);
+}
+#endif
+
 #ifdef VERIF_CONTROL
 void h_control(void)
 {
